@@ -66,6 +66,15 @@ func runScenario(name string, alloc bool, sub uint64, size int) {
 		s.undoFilesCheck()
 	}()
 	r.Hit("scenario/" + name)
+	if s.notify {
+		r.Hit("notify-hooks/installed")
+		if s.notifyDel > 0 {
+			r.Hit("notify-hooks/NotifyTxDel-called")
+		}
+		if s.notifyAdd > 0 {
+			r.Hit("notify-hooks/NotifyTxAdd-called")
+		}
+	}
 	if tf := os.Getenv("C06_TRACE"); tf != "" { // debugging aid: append every scenario's step trace to a file
 		if f, err := os.OpenFile(tf, os.O_APPEND|os.O_CREATE|os.O_WRONLY, 0644); err == nil {
 			fmt.Fprintf(f, "== %s alloc=%v subseed=%d size=%d dead=%v\n", name, alloc, sub, size, s.dead)
@@ -263,7 +272,12 @@ func (tg *txGen) randomValid(max int) {
 // HEIGHT (BIP65, BIP112, BIP141) — the same scripts pass when a block is verified with the flags of height 0.
 // "order": every transaction of the block is valid and every input exists — but at least one transaction stands BEFORE the
 // transaction of the same block whose output it spends (a block's outputs become spendable in list order only).
-var invalidKinds = []string{"double-spend", "missing", "immature", "script", "overspend", "cb-overpay", "vout-range", "own-coinbase", "wrong-key", "cltv", "csv", "wit-empty", "order"}
+// "inblock-double-spend" (an output CREATED in the block spent by two of its transactions: commitTxs "vout already spent"),
+// "inblock-vout-range" (an output number beyond the outputs of a transaction of the block: "vout too big") and
+// "spent-record-vout-range" (a second input names an output number beyond the record of a transaction the block already
+// spent from: "tx VOut too big") reach the three error returns of commitTxs that the older kinds never produced.
+var invalidKinds = []string{"double-spend", "missing", "immature", "script", "overspend", "cb-overpay", "vout-range", "own-coinbase", "wrong-key", "cltv", "csv", "wit-empty", "order",
+	"inblock-double-spend", "inblock-vout-range", "spent-record-vout-range"}
 
 // inBlockDeps[i] = positions (in txs) of the transactions whose outputs txs[i] spends.
 func inBlockDeps(txs []*btc.Tx) [][]int {
@@ -527,6 +541,47 @@ func (s *scen) makeBlockL(parent *rBlock, kind string, allEver map[outpoint]rCoi
 			}
 			tg.spend([]outpoint{fake}, 1, 0, false)
 		}
+	case "inblock-double-spend", "inblock-vout-range":
+		if ops := tg.spendable(false); len(ops) > 0 {
+			par := tg.spend([]outpoint{ops[g.Intn(len(ops))]}, 1+g.Intn(3), 0, false)
+			if kind == "inblock-vout-range" {
+				fake := outpoint{par.Hash.Hash, uint32(len(par.TxOut) + g.Intn(2))}
+				tg.local[fake] = rCoin{rOut{1000 + uint64(g.Intn(1000)), chainkit.AnyoneScript}, h, false}
+				tg.spend([]outpoint{fake}, 1, 0, false)
+				delete(tg.local, fake)
+			} else {
+				var mine []outpoint
+				for _, op := range tg.spendable(true) {
+					if op.Txid == par.Hash.Hash {
+						mine = append(mine, op)
+					}
+				}
+				if len(mine) > 0 {
+					op := mine[g.Intn(len(mine))]
+					tg.spend([]outpoint{op}, 1, 0, false)
+					tg.used[op] = false
+					tg.spend([]outpoint{op}, 1+g.Intn(2), 0, false)
+				}
+			}
+		}
+	case "spent-record-vout-range":
+		if ops := tg.spendable(false); len(ops) > 0 {
+			op := ops[g.Intn(len(ops))]
+			c := tg.coin(op)
+			tg.spend([]outpoint{op}, 1, 0, false) // the block spends from this record first ...
+			n := uint32(0)
+			for o2 := range allEver {
+				if o2.Txid == op.Txid && o2.Vout >= n {
+					n = o2.Vout + 1
+				}
+			}
+			fake := outpoint{op.Txid, n + uint32(g.Intn(2))} // ... and then names an output the transaction never had
+			tg.view = map[outpoint]rCoin{fake: c}
+			for k, v := range ctx.view {
+				tg.view[k] = v
+			}
+			tg.spend([]outpoint{fake}, 1, 0, false)
+		}
 	case "order":
 		// an in-block chain parent -> child (-> grandchild), the child possibly with a second input from the branch's
 		// unspent set; then the list is put into an order that breaks at least one of these links
@@ -719,6 +774,17 @@ func genRandom(s *scen, size int) {
 		}
 		if pDef > 0 && g.Intn(100) < pDef {
 			s.defrag()
+		}
+		if s.gHdr.Chance(1, 9) {
+			// a block again: a duplicate, or — when it (or an ancestor) was thrown away as invalid meanwhile — a block the
+			// node no longer knows: judged again, thrown away again
+			if x := upper[s.gHdr.Intn(len(upper))]; x.delivered {
+				if out := s.deliver(x); out == "dup" {
+					r.Hit("delivery/again/dup")
+				} else {
+					r.Hit("delivery/again/after-removal")
+				}
+			}
 		}
 	}
 	if s.alloc {
